@@ -123,6 +123,21 @@ where
         })
     }
 
+    // only identifiers, pronouns and array subscripts (and what a `roll` pops from) denote
+    // places; anything else is not writable, and its operands are neither evaluated nor
+    // written through (an error in one of them used to be swallowed by `combine`)
+    fn visit_binary_expression(&mut self, _: &BinaryExpression) -> visit::Result<Self> {
+        Ok(not_writable_error().into())
+    }
+
+    fn visit_unary_expression(&mut self, _: &UnaryExpression) -> visit::Result<Self> {
+        Ok(not_writable_error().into())
+    }
+
+    fn visit_function_call(&mut self, _: &FunctionCall) -> visit::Result<Self> {
+        Ok(not_writable_error().into())
+    }
+
     fn visit_pronoun(&mut self, _: SourceRange) -> visit::Result<Self> {
         wrap(|| Ok((self.write)(self.env.borrow_mut().last_access_mut()?)?))
     }
